@@ -19,6 +19,7 @@
 -/
 import Ladybug.Proofs.C09Lemmas
 import Ladybug.Proofs.C09Obj
+import Ladybug.Model.PsychroChart
 
 namespace Psychro
 
@@ -628,5 +629,120 @@ example : BisInv 10 30 ⟨30, 10, 20⟩ := by unfold BisInv; norm_num
 example : (bisStep (30 : ℝ) 0 101325 ⟨30, 10, 20⟩).sup - (bisStep (30 : ℝ) 0 101325 ⟨30, 10, 20⟩).inf = 10 := by
   have := (bisStep_width (30 : ℝ) 0 101325 ⟨30, 10, 20⟩ (by norm_num)).1
   rw [this]; norm_num
+
+
+/-! ### round 4: the curve families of the chart (Model/PsychroChart.lean) -/
+
+/-- The dry bulb that `db_temp_from_enth_hr` returns for an enthalpy and a humidity ratio `w ≥ 0` is a state
+    of exactly that enthalpy, for every reference temperature (the converse of `C09_enthalpy_inverse`):
+    both points an enthalpy line of the chart is drawn through are states of the labelled enthalpy. -/
+theorem C09_enth_line_constant (e w ref : ℝ) (hw : 0 ≤ w) :
+    enthalpyRaw (dbTempFromEnthHr e w ref) w ref = e := by
+  unfold enthalpyRaw dbTempFromEnthHr
+  simp only []
+  have h : (1.006 : ℝ) + 1.86 * w ≠ 0 := by positivity
+  norm_num only []
+  field_simp
+  ring
+
+/-- Converting a Celsius value to the chart's unit and back is the identity (SI and IP charts). -/
+theorem C09_chart_toC_ofC (c : Chart ℝ) (t : ℝ) : c.toC (c.ofC t) = t := by
+  unfold Chart.toC Chart.ofC
+  cases c.useIp
+  · simp
+  · simp only [if_true]
+    unfold fToC cToF
+    norm_num only []
+    ring
+
+/-- With the repair of fixes/C09_enthalpy_lines_max_hr.patch (the upper point computed for the chart's maximum
+    humidity ratio) the upper point of every enthalpy line, read back through the chart's axes, is a state of the
+    labelled enthalpy — on SI and IP charts, for every reference temperature. -/
+theorem C09_chart_enth_line_upper_end_fixed (c : Chart ℝ) (e ref hrMax : ℝ) (hx : c.xDim ≠ 0) (hy : c.yDim ≠ 0)
+    (h0 : 0 ≤ hrMax) :
+    let q := (c.enthLineEnds e ref hrMax hrMax).2
+    enthalpyRaw (c.toC (c.minT + (q.1 - c.baseX) / c.xDim)) ((q.2 - c.baseY) / c.yDim) ref = e := by
+  intro q
+  have h1 := (C09_chart_coords_invert c (c.ofC (dbTempFromEnthHr e hrMax ref)) hrMax hx hy)
+  show enthalpyRaw (c.toC (c.minT + ((c.enthLineEnds e ref hrMax hrMax).2.1 - c.baseX) / c.xDim))
+    (((c.enthLineEnds e ref hrMax hrMax).2.2 - c.baseY) / c.yDim) ref = e
+  unfold Chart.enthLineEnds
+  simp only []
+  rw [h1.1, h1.2, C09_chart_toC_ofC]
+  exact C09_enth_line_constant e hrMax ref h0
+
+/-- Recorded defect C09-enthalpy-lines-ignore-max-humidity-ratio: the code draws the line towards the dry bulb
+    of humidity ratio 0.03 whatever the chart's maximum is; on a chart with maximum 0.02 the upper point of the
+    "40 kJ/kg" line is a state of less than 31 kJ/kg. -/
+theorem C09_enth_line_max_hr_counterexample :
+    enthalpyRaw (dbTempFromEnthHr (40 : ℝ) 0.03 0) 0.02 0 < 31 := by
+  unfold enthalpyRaw dbTempFromEnthHr
+  norm_num
+
+/-- The upper point of every wet-bulb line is the saturation state at that wet bulb
+    (`db_temp_and_hr_from_wb_rh(wb, 100)` = (wb, saturation humidity ratio)). -/
+theorem C09_chart_wb_line_upper_end (c : Chart ℝ) (wb : ℝ) :
+    (c.wbLineEnds wb).2 = (c.tX (c.ofC wb), c.hrY (humidRatioFromDbRh wb 100.0 c.pressure)) := by
+  unfold Chart.wbLineEnds
+  simp only []
+  rw [C09_db_from_wb_sat]
+  rfl
+
+/-- helper: an element of `takeWhile p l` satisfies `p` and lies in `l` -/
+theorem mem_takeWhile_sat {β : Type} (p : β → Bool) :
+    ∀ (l : List β) (a : β), a ∈ l.takeWhile p → p a = true ∧ a ∈ l
+  | [], a, h => by simp at h
+  | x :: xs, a, h => by
+    by_cases hx : p x = true
+    · rw [List.takeWhile_cons_of_pos hx] at h
+      rcases List.mem_cons.mp h with rfl | h'
+      · exact ⟨hx, List.mem_cons_self⟩
+      · have := mem_takeWhile_sat p xs a h'
+        exact ⟨this.1, List.mem_cons_of_mem _ this.2⟩
+    · rw [List.takeWhile_cons_of_neg hx] at h
+      simp at h
+
+/-- helper: `takeWhile` over a list is a prefix of `takeWhile` over any extension of the list -/
+theorem takeWhile_prefix_append' {β : Type} (p : β → Bool) :
+    ∀ (l1 l2 : List β), l1.takeWhile p <+: (l1 ++ l2).takeWhile p
+  | [], l2 => List.nil_prefix
+  | x :: xs, l2 => by
+    by_cases hx : p x = true
+    · simp only [List.cons_append, List.takeWhile_cons_of_pos hx]
+      exact (List.prefix_cons_inj x).mpr (takeWhile_prefix_append' p xs l2)
+    · simp only [List.cons_append, List.takeWhile_cons_of_neg hx]
+      exact List.nil_prefix
+
+/-- Every vertex of a relative-humidity curve below the cut-off is the plotted point of a state of that relative
+    humidity (so `C09_chart_rh_curve` applies to each), whatever the list of temperatures, and the humidity
+    ratio of each lies below the chart's maximum. -/
+theorem C09_chart_rh_vertices_are_states (c : Chart ℝ) (hrMax rh : ℝ) (temps : List ℝ) :
+    ∀ q ∈ c.rhVertices hrMax rh temps, ∃ t ∈ temps, q = c.plotPoint t rh ∧
+      humidRatioFromDbRh (c.toC t) rh c.pressure < hrMax := by
+  intro q hq
+  unfold Chart.rhVertices at hq
+  rw [List.mem_map] at hq
+  obtain ⟨a, ha, rfl⟩ := hq
+  obtain ⟨hp, hm⟩ := mem_takeWhile_sat _ _ _ ha
+  rw [List.mem_map] at hm
+  obtain ⟨t, ht, rfl⟩ := hm
+  refine ⟨t, ht, ?_, ?_⟩
+  · unfold Chart.plotPoint Chart.toC
+    rfl
+  · simpa using hp
+
+/-- The answer does not depend on how the temperatures were grouped: the vertices of a list are those of its
+    first part followed by those of the rest while the first part stays below the cut-off (the curve over
+    `temps₁ ++ temps₂` starts with the curve over `temps₁`). -/
+theorem C09_chart_rh_vertices_prefix (c : Chart ℝ) (hrMax rh : ℝ) (t1 t2 : List ℝ) :
+    (c.rhVertices hrMax rh t1) <+: (c.rhVertices hrMax rh (t1 ++ t2)) := by
+  unfold Chart.rhVertices
+  rw [List.map_append]
+  exact List.IsPrefix.map _ (takeWhile_prefix_append' _ _ _)
+
+/-- non-vacuity: an SI chart, one temperature below the cut-off gives one vertex -/
+example : ((⟨0, 0, 1, 1500, -20, 101325, false⟩ : Chart ℝ).rhVertices 0.03 0 [20]).length = 1 := by
+  unfold Chart.rhVertices humidRatioFromDbRh
+  norm_num [Chart.toC]
 
 end Psychro
